@@ -42,6 +42,9 @@ use noodles_fasta as fasta;
 use noodles_sam as sam;
 use nv::{Case, CaseWriter, Obs, Outcome, Rng, errkind, guarded};
 
+#[path = "../shared/c19_multi.rs"]
+mod c19_multi;
+
 // ---------------------------------------------------------------------------------------------
 // file specification
 
@@ -925,6 +928,9 @@ fn run(c: &Case) -> Obs {
     match c.kind.as_str() {
         "idx" => run_idx(c),
         "qry" => run_qry(c),
+        "midx" => c19_multi::run_midx(c),
+        "mqry" => c19_multi::run_mqry(c),
+        "unm" => c19_multi::run_unm(c),
         _ => Obs::ok("-", false),
     }
 }
@@ -1115,6 +1121,7 @@ fn generate(rng: &mut Rng, tier: &str, w: &mut CaseWriter) {
         let spec = gen_spec(rng, i);
         push_file(rng, w, &spec, 15);
     }
+    c19_multi::generate_multi(rng, thorough, w);
 }
 
 fn main() {
